@@ -76,6 +76,20 @@ fn hx(h: &H256) -> String {
     hex::encode(h)
 }
 
+fn show<E: std::fmt::Debug>(r: &Result<H256, E>) -> String {
+    match r {
+        Ok(h) => hx(h),
+        Err(e) => format!("{e:?}"),
+    }
+}
+
+fn show2(r: &Result<Result<H256, String>, String>) -> String {
+    match r {
+        Ok(x) => show(x),
+        Err(p) => format!("panic: {p}"),
+    }
+}
+
 impl M {
     fn state_of(&self, l: &Live, hist: Vec<Act>) -> St {
         St {
@@ -100,19 +114,19 @@ impl M {
                     .map_err(|e| format!("{e:?}"))
             });
             if r != Ok(Ok(*eroot)) {
-                viol(ctx, n, hist, "C12:from_set".into(), hx(eroot), format!("{order}: {r:?}"));
+                viol(ctx, n, hist, "C12:from_set".into(), hx(eroot), format!("{order}: {}", show2(&r)));
             }
             let r = guard::catch_any(|| {
                 in_memory::MerkleTree::from_set(set.iter().map(|(k, v)| (mk(k), v.clone()))).root()
             });
             if r != Ok(*eroot) {
-                viol(ctx, n, hist, "C12:inmem-from_set".into(), hx(eroot), format!("{order}: {r:?}"));
+                viol(ctx, n, hist, "C12:inmem-from_set".into(), hx(eroot), format!("{order}: {}", show(&r)));
             }
             let r = guard::catch_any(|| {
                 in_memory::MerkleTree::root_from_set(set.iter().map(|(k, v)| (mk(k), v.clone())))
             });
             if r != Ok(*eroot) {
-                viol(ctx, n, hist, "C12:root_from_set".into(), hx(eroot), format!("{order}: {r:?}"));
+                viol(ctx, n, hist, "C12:root_from_set".into(), hx(eroot), format!("{order}: {}", show(&r)));
             }
             let r = guard::catch_any(|| {
                 in_memory::MerkleTree::nodes_from_set(set.iter().map(|(k, v)| (mk(k), v.clone())))
@@ -156,6 +170,17 @@ impl Model for M {
         match replay_hist(&h, false) {
             Ok(l) => {
                 ctx.outcome(&format!("transition:{}", l.last_class), 1);
+                // samples: a delete that makes an orphan leaf climb past placeholders
+                if l.last_class == "delete-present" && l.refm.len() >= 2 && h.len() >= 4 && ctx.sample_count() < 4 {
+                    ctx.sample(json!({
+                        "actions": hist_names(&h),
+                        "final_map": l.refm.iter().map(|(k, v)| format!("{} -> {:?}", kname(k), String::from_utf8_lossy(v))).collect::<Vec<_>>(),
+                        "root": hx(&l.root()),
+                        "reference_root": hx(&ref_root(&l.refm)),
+                        "stored_nodes": l.store.len(),
+                        "checked_on_state": "root, in_memory root, from_set x2 orders, in_memory::from_set, root_from_set, nodes_from_set(+load) == reference root",
+                    }));
+                }
                 Some(self.state_of(&l, h))
             }
             Err((i, e)) => {
@@ -189,23 +214,13 @@ impl Model for M {
         }
         let mroot = guard::catch_any(|| l.mem.as_ref().unwrap().root());
         if mroot != Ok(eroot) {
-            viol(ctx, self.nkeys, &s.hist, format!("C12:inmem-root:{class}"), hx(&eroot), format!("{mroot:?}"));
+            viol(ctx, self.nkeys, &s.hist, format!("C12:inmem-root:{class}"), hx(&eroot), show(&mroot));
         }
         self.set_checks(ctx, &s.hist, &l.refm, &eroot);
         ctx.evals(1);
         ctx.outcome(&format!("state:keys={}", l.refm.len()), 1);
         if !l.refm.is_empty() {
             ctx.fp_of(&(&s.refc, &s.digest));
-        }
-        // samples: a delete that makes an orphan leaf climb past placeholders
-        if class == "delete-present" && l.refm.len() >= 2 && s.hist.len() >= 4 && ctx.sample_count() < 4 {
-            ctx.sample(json!({
-                "actions": hist_names(&s.hist),
-                "final_map": l.refm.iter().map(|(k, v)| format!("{} -> {:?}", kname(k), String::from_utf8_lossy(v))).collect::<Vec<_>>(),
-                "root": hx(&l.root()),
-                "stored_nodes": l.store.len(),
-                "checked": "root, in_memory root, from_set x2 orders, in_memory::from_set, root_from_set, nodes_from_set(+load) == reference root",
-            }));
         }
     }
 }
@@ -253,7 +268,7 @@ fn inmem_one(ctx: &Ctx, nkeys: usize, hist: &[Act]) {
     if r != Ok(eroot) {
         ctx.violation(
             format!("C12:inmem-root:{class}"),
-            format!("in_memory after {:?}: expected {}, observed {r:?}", hist_names(hist), hx(&eroot)),
+            format!("in_memory after {:?}: expected {}, observed {}", hist_names(hist), hx(&eroot), show(&r)),
             json!({"model": "inmem", "nkeys": nkeys, "actions": hist, "readable": hist_names(hist)}),
         );
     }
@@ -296,7 +311,9 @@ fn explore(ctx: &Ctx) {
         "merged_bfs",
         json!({"depth_bound": depth, "completed_depth": st.completed_depth, "states": st.states, "transitions": st.transitions, "per_depth": st.per_depth, "capped": st.capped}),
     );
+    let t_bfs = ctx.elapsed();
     let n = inmem_histories(ctx, nkeys, mdepth);
+    ctx.set("wall_s_parts", json!({"merged_bfs": t_bfs, "inmem_unmerged": ctx.elapsed() - t_bfs}));
     ctx.set("inmem_unmerged", json!({"max_len": mdepth, "histories": n}));
 }
 
@@ -318,5 +335,6 @@ fn replay(case: &Value, ctx: &Ctx) {
 }
 
 fn main() {
+    tune_allocator();
     run_check("C12", Level::ModelChecking, explore, replay)
 }
